@@ -11,12 +11,6 @@ def sh(*a, **k):
 
 MUTANTS = [
  # name, property, [(file, old, new), ...]
- ("c01_swap_port_remaddr_len_octets", "C01", [
-   ("authenticate.go", "\tbuf = append(buf, uint8(a.Port.Len()))\n\tbuf = append(buf, uint8(a.RemAddr.Len()))\n\tbuf = append(buf, uint8(a.Data.Len()))",
-                       "\tbuf = append(buf, uint8(a.RemAddr.Len()))\n\tbuf = append(buf, uint8(a.Port.Len()))\n\tbuf = append(buf, uint8(a.Data.Len()))"),
-   ("authenticate.go", "\tuserLen := buf.int()\n\tportLen := buf.int()\n\tremAddrLen := buf.int()\n\tdataLen := buf.int()\n\n\ta.User = AuthenUser(buf.string(userLen))",
-                       "\tuserLen := buf.int()\n\tremAddrLen := buf.int()\n\tportLen := buf.int()\n\tdataLen := buf.int()\n\n\ta.User = AuthenUser(buf.string(userLen))"),
- ]),
  ("c01_uint16_little_endian_both_ways", "C01", [
    ("packet.go", "return append(b, byte(i>>8), byte(i))", "return append(b, byte(i), byte(i>>8))"),
    ("packet.go", "n := int(s[0])<<8 | int(s[1])", "n := int(s[1])<<8 | int(s[0])"),
@@ -102,12 +96,6 @@ MUTANTS = [
  ("c18_bcrypt_logs_attempt_on_failure", "C18", [
    ("cmds/server/config/authenticators/bcrypt/bcrypt.go", "\ta.Errorf(request.Context, \"failed to validate the user [%v] using a bcrypt password\", a.username)",
                                                           "\ta.Errorf(request.Context, \"failed to validate the user [%v] using a bcrypt password (%d bytes, fields %v)\", a.username, len(password), a.GetFields(request))"),
- ]),
- ("c19_flag_when_any_decoder_reports_mismatch", "C19", [
-   ("crypt.go", "\t\tif errCnt == 3 {", "\t\tif errCnt >= 2 {"),
- ]),
- ("c19_bad_secret_reply_keeps_connection", "C19", [
-   ("crypt.go", "\t\treturn nil, fmt.Errorf(\"bad secret detected for ip [%s]\", c.RemoteAddr().String())", "\t\treturn c.read()"),
  ]),
  ("c20_serve_accepted_not_decremented_on_panic_free_path", "C20", [
    ("server.go", "\tserveAccepted.Inc()\n\ts.handle(ctx, newCrypter(secret, conn, s.proxy), handler)\n\tserveAccepted.Dec()", "\tserveAccepted.Inc()\n\ts.handle(ctx, newCrypter(secret, conn, s.proxy), handler)\n\tif ctx.Err() == nil {\n\t\tserveAccepted.Dec()\n\t}"),
